@@ -75,6 +75,8 @@ def run(tier):
     MID_OPS = ("VDeleteIndex", "VCompress", "VImportCommit")
     for name, consts, n in (("base", dict(base, MaxOps=2 if quick else 3), 70 if quick else 1500),
                             ("graph", dict(graph, MaxOps=2 if quick else 3), 40 if quick else 1000),
+                            # the key-value store alone, four calls deep: "set, snapshot, set again, delete" and its neighbours
+                            ("kvonly", dict(ec.KVONLY, MaxOps=4, MaxFile=5), 80 if quick else 1500),
                             ("seeded", dict(seeded, MaxOps=2), 150 if quick else 800),
                             # the seed holds an edge that was linked, soft-unlinked and linked again: the old log replayed
                             # over a newer image (crash between snapshot rename and truncation) must change nothing
